@@ -401,11 +401,38 @@ func c17Runs(rt *rapid.T) *c17Case {
 	return &c17Case{Patch: patch, File: b.String()}
 }
 
+// c17PlusComments: the '+' side of the patch itself carries Go comments (a
+// documented field, a trailing remark, a commented statement). They are part
+// of the patch's layout, not of the code it describes; none of them may show
+// up in the output ("none invented") - whether or not the file has comments
+// of its own.
+func c17PlusComments(rt *rapid.T) *c17Case {
+	cm := func(s string) string {
+		if rapid.IntRange(0, 2).Draw(rt, "hostComments"+s) == 0 {
+			return ""
+		}
+		return s
+	}
+	file := "package plain\n\n" + cm("// Thing is a thing. c17_p1\n") + "type Thing struct {\n\tID int" + cm(" // c17_p2") + "\n}\n\n" +
+		cm("// New makes one. c17_p3\n") + "func New() *Thing {\n\tt := &Thing{}\n\tsetup(t)" + cm(" // c17_p4") + "\n\treturn t\n}\n\nvar limit = 10\n"
+	patch := rapid.SampledFrom([]string{
+		"@@\nvar T identifier\n@@\n type T struct {\n   ...\n+  // Name is the name of the thing.\n+  Name string // set by New\n }\n",
+		"@@\nvar T identifier\n@@\n type T struct {\n+  /* block remark */ Name string\n   ...\n }\n",
+		"@@\nvar x expression\n@@\n-setup(x)\n+// prepare first\n+prepare(x) // then set up\n+setup(x)\n",
+		"@@\nvar n identifier\nvar v expression\n@@\n-var n = v\n+// n is documented now.\n+var n = v // was undocumented\n",
+		"@@\nvar n identifier\nvar v expression\n@@\n-var n = v\n+const (\n+  // grouped\n+  n = v // trailing\n+)\n",
+	}).Draw(rt, "plusCommentPatch")
+	return &c17Case{Patch: patch, File: file}
+}
+
 func TestC17(t *testing.T) {
 	c := coll("C17")
 	checkN(t, func(rt *rapid.T) {
-		if rapid.IntRange(0, 7).Draw(rt, "runsFamily") == 0 {
+		if fam := rapid.IntRange(0, 15).Draw(rt, "family"); fam <= 2 {
 			cs := c17Runs(rt)
+			if fam == 2 {
+				cs = c17PlusComments(rt)
+			}
 			fm, err := format.Source([]byte(cs.File))
 			if err != nil {
 				c.Note("generator:runs-host-unparseable")
@@ -421,7 +448,12 @@ func TestC17(t *testing.T) {
 				c.Note("not-judged")
 				return
 			}
-			c.Case(evid.Hash(cs.Patch, cs.File), nontriv, "family:declaration-runs", fmt.Sprintf("nontrivial:%v", nontriv))
+			famName := "family:declaration-runs"
+			if fam == 2 {
+				famName = "family:comments-in-plus-lines"
+				nontriv = true
+			}
+			c.Case(evid.Hash(cs.Patch, cs.File), nontriv, famName, fmt.Sprintf("nontrivial:%v", nontriv))
 			if sig != "" {
 				violate(rt, "C17", sig, msg, cs)
 			}
